@@ -376,14 +376,21 @@ def stackTrue (d : Dev) (rx : RxEngine) (x : List SItem) : Bool :=
   | .ok vs => Spec.isTrue (vs.headD .null)
   | .error _ => false
 
-theorem tryCombos_any (d : Dev) (h : d.uncmp = false) (rx : RxEngine) (st : List RItem) :
-    ∀ n mi, tryCombos d rx st n mi = .ok ((List.range n).any fun k => stackTrue d rx (expand st (mi + k))) := by
+theorem expand_length (s : List RItem) : ∀ mi, (expand s mi).length = s.length := by
+  induction s with
+  | nil => intro mi; rfl
+  | cons it r ih => intro mi; cases it <;> simp [expand, ih]
+
+theorem tryCombos_any (d : Dev) (rx : RxEngine) (st : List RItem) :
+    ∀ n mi, (∀ k, k < n → ∃ vs, evalStack d rx (expand st (mi + k)) = .ok vs) →
+      tryCombos d rx st n mi = .ok ((List.range n).any fun k => stackTrue d rx (expand st (mi + k))) := by
   intro n
   induction n with
-  | zero => intro mi; rfl
+  | zero => intro mi _; rfl
   | succ n ih =>
-    intro mi
-    obtain ⟨vs, hvs⟩ := evalStack_total d h rx (expand st mi)
+    intro mi hok
+    obtain ⟨vs, hvs⟩ := hok 0 (by omega)
+    simp only [Nat.add_zero] at hvs
     simp only [tryCombos, hvs]
     rw [List.range_succ_eq_map, List.any_cons, List.any_map]
     have h0 : stackTrue d rx (expand st (mi + 0)) = Spec.isTrue (vs.headD .null) := by
@@ -391,39 +398,39 @@ theorem tryCombos_any (d : Dev) (h : d.uncmp = false) (rx : RxEngine) (st : List
     rw [h0]
     cases Spec.isTrue (vs.headD .null)
     · simp only [Bool.false_eq_true, ↓reduceIte, Bool.false_or]
-      rw [ih (mi + 1)]
+      rw [ih (mi + 1) (fun k hk => by
+        have := hok (k + 1) (by omega)
+        rwa [show mi + (k + 1) = mi + 1 + k by omega] at this)]
       congr 2
       funext k
       show stackTrue d rx (expand st (mi + 1 + k)) = stackTrue d rx (expand st (mi + (k + 1)))
       rw [show mi + 1 + k = mi + (k + 1) by omega]
     · simp
 
-/-- the per-element verdict of the repaired code: SOME combination of the multi-valued operands makes
-the script true -/
-theorem matchResolved_any (d : Dev) (h : d.uncmp = false) (rx : RxEngine) (st : List RItem) (hne : st ≠ []) :
+/-- the per-element verdict when no combination faults: SOME combination of the multi-valued operands
+makes the script true -/
+theorem matchResolved_any_of_ok (d : Dev) (rx : RxEngine) (st : List RItem) (hne : st ≠ [])
+    (hok : ∀ x ∈ prod st, ∃ vs, evalStack d rx x = .ok vs) :
     matchResolved d rx st = .ok ((prod st).any (stackTrue d rx)) := by
   unfold matchResolved
   cases hm : hasMulti st
   · -- no multi-valued operand: one stack
-    simp only [Bool.false_eq_true, ↓reduceIte, prod_no_multi st hm, List.any_cons, List.any_nil, Bool.or_false]
-    obtain ⟨vs, hvs⟩ := evalStack_total d h rx (expand st 0)
+    have hp := prod_no_multi st hm
+    simp only [Bool.false_eq_true, ↓reduceIte, hp, List.any_cons, List.any_nil, Bool.or_false]
+    obtain ⟨vs, hvs⟩ := hok (expand st 0) (by rw [hp]; simp)
     have hl := evalStack_length d rx _ vs hvs
-    have hexp : ∀ (s : List RItem) mi, (expand s mi).length = s.length := by
-      intro s
-      induction s with
-      | nil => intro mi; rfl
-      | cons it r ih => intro mi; cases it <;> simp [expand, ih]
-    rw [hexp] at hl
+    rw [expand_length] at hl
     cases vs with
     | nil =>
       simp at hl
       exact absurd (List.eq_nil_of_length_eq_zero hl.symm) hne
     | cons v vs' => simp [hvs, stackTrue]
   · simp only [↓reduceIte]
-    rw [tryCombos_any d h rx st]
+    rw [tryCombos_any d rx st _ 0 (fun k hk => by
+      simp only [Nat.zero_add]
+      exact hok _ (expand_mem_prod st k hk))]
     congr 1
     simp only [Nat.zero_add]
-    -- both sides say: some combination is true
     rw [Bool.eq_iff_iff]
     simp only [List.any_eq_true, List.mem_range]
     constructor
@@ -432,5 +439,9 @@ theorem matchResolved_any (d : Dev) (h : d.uncmp = false) (rx : RxEngine) (st : 
     · rintro ⟨x, hx, ht⟩
       obtain ⟨mi, h1, h2⟩ := prod_mem_expand st x hx
       exact ⟨mi, h1, by rw [h2]; exact ht⟩
+
+theorem matchResolved_any (d : Dev) (h : d.uncmp = false) (rx : RxEngine) (st : List RItem) (hne : st ≠ []) :
+    matchResolved d rx st = .ok ((prod st).any (stackTrue d rx)) :=
+  matchResolved_any_of_ok d rx st hne (fun x _ => evalStack_total d h rx x)
 
 end OjgVerif.Script
